@@ -20,6 +20,8 @@ LEVEL = 'model_checking'
 KINDS = ('list', 'dict', 'tup')
 TNAME = {'list': 'list', 'dict': 'dict', 'tup': 'tuple', 'cdict': 'dict'}
 KINDS_C = ('list', 'dict', 'tup', 'cdict')     # cdict: a dict whose values carry comments
+KINDS_T = ('cdict', 'odict', 'list')             # odict: an OrderedDict - its printer builds temporary lists/tuples
+TNAME['odict'] = 'OrderedDict'
 KINDS_U = ('list', 'dict', 'unode')            # unode: a user object whose printer derives its context (assoc, ...)
 TNAME['unode'] = 'UNode'
 WATCHDOG_S = 3          # a print of a <= 8-node graph takes well under a millisecond
@@ -87,6 +89,10 @@ def build(spec, leafobj=None):
         elif kind == 'unode':
             nodes.append(UNode())
             inner.append(None)
+        elif kind == 'odict':
+            import collections
+            nodes.append(collections.OrderedDict())
+            inner.append(None)
         else:
             lst = []
             nodes.append((lst,))
@@ -96,7 +102,7 @@ def build(spec, leafobj=None):
         items = [nodes[c] for c in ch]
         if leaf is not None:
             items = [leaf if leafobj is None else leafobj] + items
-        if kind == 'dict':
+        if kind in ('dict', 'odict'):
             for j, x in enumerate(items):
                 tgt['k%d' % j] = x
         elif kind == 'unode':
@@ -134,6 +140,8 @@ def reference(spec, leaftext=None):
             return '[' + ', '.join(items) + ']'
         if kind == 'unode':
             return 'mc.checks.c13.UNode(' + ', '.join(items) + ')'
+        if kind == 'odict':
+            return 'collections.OrderedDict([' + ', '.join("('k%d', %s)" % (j, x) for j, x in enumerate(items)) + '])'
         return '{' + ', '.join("'k%d': %s" % (j, x) for j, x in enumerate(items)) + '}'      # dict and cdict
     return r(0, frozenset(), 0), probes
 
@@ -291,7 +299,14 @@ def work(item):
     ensure_registered()
     kind = item[0]
     part = core.Part()
-    if kind == 'cgraphs':
+    if kind == 'tgraphs':
+        _, n, deg, lo, hi = item
+        for spec in itertools.islice(graphs(n, deg, KINDS_T), lo, hi):
+            if part.c['viol:timeout-or-exception'] >= MAX_TIMEOUTS_PER_CHUNK:
+                break
+            check_graph(spec, part, widths=(10 ** 6, 40, 20, 1))
+            part.c['graphs'] += 1
+    elif kind == 'cgraphs':
         _, n, lo, hi, kinds, needle = item
         for spec in itertools.islice(graphs(n, 2, kinds), lo, hi):
             if part.c['viol:timeout-or-exception'] >= MAX_TIMEOUTS_PER_CHUNK:
@@ -346,6 +361,10 @@ def run(tier, seed):
         total = sum(1 for _ in graphs(n, 2, KINDS_U))
         items += [('cgraphs', n, lo, hi, KINDS_U, 'unode') for lo, hi in core.chunks(total, 32)]
         desc.append('graphs with %d nodes incl. user objects whose printers derive their context through assoc / use_multiline_strategy / nested_call: %d candidates' % (n, total))
+    for n, deg in ((1, 2), (2, 2), (3, 1)):
+        total = sum(1 for _ in graphs(n, deg, KINDS_T))
+        items += [('tgraphs', n, deg, lo, hi) for lo, hi in core.chunks(total, 32)]
+        desc.append('graphs with %d nodes (out-degree <= %d) over commented dicts, OrderedDicts (whose printer builds temporaries) and lists: %d' % (n, deg, total))
     if tier == 'thorough':
         total = sum(1 for _ in graphs(4, 1))
         items += [('graphs', 4, 1, lo, hi) for lo, hi in core.chunks(total, 128)]
